@@ -297,6 +297,7 @@ func convCisco(env *run.Env, g *genCase, o *convOutcome, changed, wantPrefixes b
 		r2 := runPair(env, pc, false)
 		if r2.Exit != 0 || r2.Stdout != "" || !strings.Contains(r2.Stderr, "comp: device unchanged") {
 			o.Conv = &clause{"second-compare-not-clean:" + scriptShape(r2.Stdout), firstLines(r2.Stdout+r2.Stderr, 5)}
+			o.SecondScript = r2.Stdout
 			return
 		}
 	}
